@@ -6,7 +6,12 @@ import (
 	"fmt"
 	"math"
 	"math/big"
+	"os"
 	"strings"
+
+	"src.elv.sh/pkg/eval"
+	"src.elv.sh/pkg/eval/vars"
+	"src.elv.sh/pkg/parse"
 
 	"verifharness/c11"
 	"verifharness/common"
@@ -176,6 +181,196 @@ func integerizeFloat(cmd string, f float64) float64 {
 	return r
 }
 
+// powSpecified: the value of math.Pow(x, y) on the arguments where it is fixed
+// by the special-case table of C99 Annex F / Go's documentation, or where the
+// mathematical result x^y (y a small integer) is exactly representable — there
+// every implementation with an error below one ulp (Go's, libm's) must return
+// exactly that double.  Anything else is "not specified" (ok = false) and is
+// neither generated nor judged.  The exact cases are computed with big.Rat and
+// the nearest-double search, never with math.Pow.
+func powSpecified(x, y float64) (want float64, ok bool) {
+	isOddInt := func(y float64) bool {
+		if math.Abs(y) >= 1<<53 {
+			return false
+		}
+		yi, yf := math.Modf(y)
+		return yf == 0 && int64(yi)&1 == 1
+	}
+	switch {
+	case y == 0 || x == 1:
+		return 1, true
+	case math.IsNaN(x) || math.IsNaN(y):
+		return math.NaN(), true
+	case y == 1:
+		return x, true
+	case x == 0:
+		switch {
+		case y < 0:
+			if isOddInt(y) {
+				return math.Copysign(math.Inf(1), x), true
+			}
+			return math.Inf(1), true
+		default:
+			if isOddInt(y) {
+				return x, true
+			}
+			return 0, true
+		}
+	case math.IsInf(y, 0):
+		switch {
+		case x == -1:
+			return 1, true
+		case (math.Abs(x) < 1) == math.IsInf(y, 1):
+			return 0, true
+		default:
+			return math.Inf(1), true
+		}
+	case math.IsInf(x, 0):
+		if math.IsInf(x, -1) {
+			neg := isOddInt(y)
+			if y < 0 {
+				if neg {
+					return math.Copysign(0, -1), true
+				}
+				return 0, true
+			}
+			if neg {
+				return math.Inf(-1), true
+			}
+			return math.Inf(1), true
+		}
+		if y < 0 {
+			return 0, true
+		}
+		return math.Inf(1), true
+	}
+	// finite non-zero x (≠ 1), finite non-zero y (≠ 1)
+	if _, yf := math.Modf(y); yf != 0 {
+		if x < 0 {
+			return math.NaN(), true
+		}
+		return 0, false
+	}
+	if math.Abs(y) >= 1<<63 { // huge even integer: certain overflow / underflow
+		switch {
+		case x == -1:
+			return 1, true
+		case (math.Abs(x) < 1) == (y > 0):
+			return 0, true
+		default:
+			return math.Inf(1), true
+		}
+	}
+	if math.Abs(y) > 64 {
+		return 0, false
+	}
+	q := exactOfBits(math.Float64bits(x) &^ (1 << 63))
+	if x < 0 {
+		q.Neg(q)
+	}
+	n := int(math.Abs(y))
+	if q.Num().BitLen()*n > 4000 || q.Denom().BitLen()*n > 4000 {
+		return 0, false
+	}
+	res := big.NewRat(1, 1)
+	for i := 0; i < n; i++ {
+		res.Mul(res, q)
+	}
+	if y < 0 {
+		res.Inv(res)
+	}
+	d := nearestDouble(res)
+	bits := math.Float64bits(d) &^ (1 << 63)
+	if bits >= infBits || bits < 1<<52 { // keep to normal results: no overflow/underflow questions
+		return 0, false
+	}
+	back := exactOfBits(bits)
+	if d < 0 {
+		back.Neg(back)
+	}
+	if back.Cmp(res) != 0 {
+		return 0, false // inexact: implementations may differ in the last place
+	}
+	return d, true
+}
+
+// rangeRef: `range` with a float among start/end/step, as documented: the
+// arguments are converted to float64, and the outputs are start, start+step,
+// (start+step)+step, … (IEEE additions) while below (above) end; the loop also
+// stops when adding the step no longer moves the value.  limit bounds the
+// count (ok = false beyond it).
+func rangeRef(nums []float64, limit int) (outs []float64, exc string, ok bool) {
+	start, end := nums[0], nums[1]
+	if start <= end {
+		step := float64(1)
+		if len(nums) == 3 {
+			step = nums[2]
+			if step <= 0 {
+				return nil, "step-positive", true
+			}
+		}
+		for cur := start; cur < end; cur += step {
+			if len(outs) >= limit {
+				return nil, "", false
+			}
+			outs = append(outs, cur)
+			if cur+step <= cur {
+				break
+			}
+		}
+		return outs, "", true
+	}
+	step := float64(-1)
+	if len(nums) == 3 {
+		step = nums[2]
+		if step >= 0 {
+			return nil, "step-negative", true
+		}
+	}
+	for cur := start; cur > end; cur += step {
+		if len(outs) >= limit {
+			return nil, "", false
+		}
+		outs = append(outs, cur)
+		if cur+step >= cur {
+			break
+		}
+	}
+	return outs, "", true
+}
+
+const rangeLimit = 48
+
+// rangeNums: the unified float slice of a range call, or nil when no float is involved.
+func rangeNums(step any, args []any) []float64 {
+	var raw []any
+	switch len(args) {
+	case 1:
+		raw = []any{0, args[0]}
+	case 2:
+		raw = []any{args[0], args[1]}
+	default:
+		return nil
+	}
+	if step != nil {
+		raw = append(raw, step)
+	}
+	hasF := false
+	for _, a := range raw {
+		if _, ok := a.(float64); ok {
+			hasF = true
+		}
+	}
+	if !hasF {
+		return nil
+	}
+	fs := make([]float64, len(raw))
+	for i, a := range raw {
+		fs[i] = conv(a)
+	}
+	return fs
+}
+
 // ---------------------------------------------------------------- generators
 
 func genFloat(r *common.Rand) float64 {
@@ -320,13 +515,235 @@ func gen(c *common.Ctx, emit func(...string)) {
 	}
 	call("exact-num")
 	call("inexact-num", 1, 2)
+	genPow(c, g, call)
+	genRangeFloat(c, g, emit)
+}
+
+var powPool = []float64{0, math.Copysign(0, -1), 1, -1, 0.5, -0.5, 2, -2, 3, -3, 2.5, -2.5, 1.5, 0.75, 10, -10, 7, 1e10,
+	math.Inf(1), math.Inf(-1), math.NaN(), math.MaxFloat64, -math.MaxFloat64, 5e-324, -5e-324, 2.2250738585072014e-308,
+	9007199254740992, 9007199254740993, 9007199254740991, -9007199254740991, 4503599627370495.5, 9223372036854775808,
+	-9223372036854775808, 1.8446744073709552e19, 1e300, 0.9999999999999999, 1.0000000000000002, -0.9999999999999999, 1e-300}
+
+// genPow: float math:pow only where its value is specified (powSpecified).
+func genPow(c *common.Ctx, g c11.G, call func(string, ...any)) {
+	r := c.Rand
+	try := func(b, e any) {
+		if _, bf := b.(float64); !bf {
+			if _, ef := e.(float64); !ef {
+				if _, isRat := e.(*big.Rat); !isRat {
+					return // exact base, exact integer exponent: C11's exact branch
+				}
+			}
+		}
+		if _, ok := powSpecified(conv(b), conv(e)); ok {
+			call("pow", b, e)
+		}
+	}
+	for _, x := range powPool { // the special-case table, exhaustively over the pool
+		for _, y := range powPool {
+			try(x, y)
+		}
+	}
+	n := c.Scale(3000, 60000)
+	for i := 0; i < n; i++ {
+		// exact powers: few significant bits, small integer exponent
+		bits := r.Range(1, 26)
+		m := float64(int64(r.U64()>>(64-uint(bits))) | 1)
+		x := math.Ldexp(m, r.Range(-60, 60))
+		if r.Bool() {
+			x = -x
+		}
+		ye := r.Range(-6, 53/bits+2)
+		if r.Chance(1, 8) {
+			x = math.Ldexp(1, r.Range(-300, 300)) * float64(1-2*r.Intn(2)) // powers of two: negative exponents are exact too
+			ye = r.Range(-40, 40)
+		}
+		var b, e any = x, float64(ye)
+		switch r.Intn(6) {
+		case 0: // exact integer exponent with a float base
+			e = ye
+		case 1: // exact base with a float exponent
+			if q := exactOfBits(math.Float64bits(x) &^ (1 << 63)); true {
+				if x < 0 {
+					q.Neg(q)
+				}
+				b = c11.Canon(q)
+			}
+		case 2: // special × random
+			b, e = common.Pick(r, powPool), genFloat(r)
+		case 3:
+			b, e = genFloat(r), common.Pick(r, powPool)
+		case 4: // exact rational (non-integer) exponent: not the exact branch
+			b, e = genExact(g, r), c11.Canon(big.NewRat(int64(r.Range(-9, 9)), 2))
+		}
+		try(b, e)
+	}
+	call("pow", 2.0)
+}
+
+// genRangeFloat: `range` with a float among start/end/&step, bounded output count.
+func genRangeFloat(c *common.Ctx, g c11.G, emit func(...string)) {
+	r := c.Rand
+	callR := func(step any, args ...any) {
+		fs := rangeNums(step, args)
+		if fs == nil {
+			return
+		}
+		if _, _, ok := rangeRef(fs, rangeLimit); !ok {
+			return
+		}
+		f := []string{"range", "-"}
+		if step != nil {
+			f[1] = c11.Enc(step)
+		}
+		for _, a := range args {
+			f = append(f, c11.Enc(a))
+		}
+		emit(f...)
+	}
+	nice := func() float64 {
+		switch r.Intn(6) {
+		case 0:
+			return float64(r.Range(-40, 40)) / 4
+		case 1:
+			return float64(r.Range(-30, 30)) / 10 // not dyadic: the additions round
+		case 2:
+			return math.Ldexp(float64(r.Range(1, 9)), r.Range(50, 60)) * float64(1-2*r.Intn(2)) // a step of 1 is absorbed
+		case 3:
+			return common.Pick(r, []float64{0, math.Copysign(0, -1), math.Inf(1), math.Inf(-1), math.NaN(), math.MaxFloat64,
+				-math.MaxFloat64, 5e-324, 1e308, -1e308, 9007199254740992, -9007199254740992, 0.1, 1e-300})
+		default:
+			return float64(r.Range(-1000, 1000)) / 8
+		}
+	}
+	exactOr := func(f float64) any { // sometimes an exact argument next to a float one
+		if r.Chance(1, 3) && f == math.Trunc(f) && math.Abs(f) < 1e15 {
+			return int(f)
+		}
+		if r.Chance(1, 6) {
+			return c11.Canon(big.NewRat(int64(r.Range(-50, 50)), int64(r.Range(1, 7))))
+		}
+		return f
+	}
+	n := c.Scale(3000, 60000)
+	for i := 0; i < n; i++ {
+		start := nice()
+		var step float64
+		switch r.Intn(5) {
+		case 0:
+			step = nice()
+		case 1:
+			step = 0.1 * float64(r.Range(1, 30))
+		default:
+			step = float64(r.Range(1, 24)) / 8
+		}
+		if r.Chance(1, 3) {
+			step = -step
+		}
+		end := start + step*(float64(r.Range(0, 40))+float64(r.Range(0, 4))/4)
+		if r.Chance(1, 10) {
+			end = nice()
+		}
+		var st any
+		if r.Chance(2, 3) {
+			st = exactOr(step)
+		}
+		a, b := exactOr(start), exactOr(end)
+		if r.Chance(1, 5) {
+			callR(st, b) // one argument: start is the exact 0
+		} else {
+			callR(st, a, b)
+		}
+	}
+	for _, x := range []float64{math.NaN(), math.Inf(1), math.Inf(-1), 0, 1, 9007199254740992} {
+		for _, y := range []float64{math.NaN(), math.Inf(1), math.Inf(-1), 0, 3.5, 9007199254740996} {
+			callR(nil, x, y)
+			for _, z := range []any{math.NaN(), 0.0, math.Copysign(0, -1), 1e308, -1e308, math.Inf(1), math.Inf(-1), 2, -2, 0.5} {
+				callR(z, x, y)
+			}
+		}
+	}
 }
 
 // -------------------------------------------------------------------- impl
 
+type state struct {
+	*c11.Runner
+	rr *rangeRunner
+}
+
+// rangeRunner runs float `range` calls with typed arguments in $a0 $a1 $st and
+// reads at most rangeLimit+1 outputs: a loop that fails to stop shows up as one
+// output too many instead of hanging the run (the abandoned evaluation stays
+// blocked on its output port; a fresh Evaler is used from then on).
+type rangeRunner struct {
+	ev    *eval.Evaler
+	slots *[3]any
+}
+
+var devNull *os.File
+
+func init() {
+	f, err := os.OpenFile(os.DevNull, os.O_RDWR, 0)
+	if err != nil {
+		panic(err)
+	}
+	devNull = f
+}
+
+func newRangeRunner() *rangeRunner {
+	r := &rangeRunner{ev: eval.NewEvaler(), slots: new([3]any)}
+	nb := eval.BuildNs()
+	nb.AddVar("a0", vars.FromPtr(&r.slots[0]))
+	nb.AddVar("a1", vars.FromPtr(&r.slots[1]))
+	nb.AddVar("st", vars.FromPtr(&r.slots[2]))
+	r.ev.ExtendGlobal(nb)
+	return r
+}
+
+func (r *rangeRunner) run(step any, args []any) ([]any, string) {
+	src := "range"
+	if step != nil {
+		r.slots[2] = step
+		src += " &step=$st"
+	}
+	for i, a := range args {
+		r.slots[i] = a
+		src += fmt.Sprintf(" $a%d", i)
+	}
+	ch := make(chan any)
+	errc := make(chan error, 1)
+	ev := r.ev
+	go func() {
+		errc <- ev.Eval(parse.Source{Name: "[vh]", Code: src},
+			eval.EvalCfg{Ports: []*eval.Port{eval.DummyInputPort, {Chan: ch, File: devNull}, eval.DummyOutputPort}})
+	}()
+	var outs []any
+	for {
+		select {
+		case v := <-ch:
+			outs = append(outs, v)
+			if len(outs) > rangeLimit {
+				nr := newRangeRunner()
+				r.ev, r.slots = nr.ev, nr.slots
+				return outs, ""
+			}
+		case err := <-errc:
+			if err != nil {
+				return nil, c11.Classify(err)
+			}
+			return outs, ""
+		}
+	}
+}
+
 func impl(st any, f []string) string {
 	cmd, step, args := c11.ParseOp(f)
-	outs, exc := st.(*c11.Runner).Run(cmd, step, args, strings.Join(f, "\t"))
+	if cmd == "range" && len(args) <= 2 && rangeNums(step, args) != nil {
+		outs, exc := st.(*state).rr.run(step, args)
+		return c11.Show(outs, exc, false)
+	}
+	outs, exc := st.(*state).Runner.Run(cmd, step, args, strings.Join(f, "\t"))
 	return c11.Show(outs, exc, false)
 }
 
@@ -450,6 +867,43 @@ func oracle(_ any, f []string, out string) (string, string) {
 			}
 			want = c11.Enc(c11.Canon(q))
 		}
+	case "pow":
+		if len(args) != 2 {
+			return "", ""
+		}
+		_, bf := args[0].(float64)
+		_, ef := args[1].(float64)
+		_, er := args[1].(*big.Rat)
+		if !bf && !ef && !er {
+			return "", "" // exact branch (C11)
+		}
+		w, ok := powSpecified(conv(args[0]), conv(args[1]))
+		if !ok {
+			return "", ""
+		}
+		want = fbits(w)
+	case "range":
+		_, step, _ := c11.ParseOp(f)
+		fs := rangeNums(step, args)
+		if fs == nil {
+			return "", ""
+		}
+		outs, exc, ok := rangeRef(fs, rangeLimit)
+		if !ok {
+			return "", ""
+		}
+		switch {
+		case exc != "":
+			want = "EXC " + exc
+		case len(outs) == 0:
+			want = "-"
+		default:
+			parts := make([]string, len(outs))
+			for i, x := range outs {
+				parts[i] = fbits(x)
+			}
+			want = strings.Join(parts, " ")
+		}
 	default:
 		return "", ""
 	}
@@ -460,6 +914,8 @@ func oracle(_ any, f []string, out string) (string, string) {
 			cls = "wrong-conversion-" + kindOf(args[0])
 		case "exact-num":
 			cls = "wrong-exact-value"
+		case "range":
+			cls = "wrong-float-range"
 		case "+", "-", "*", "/":
 			cls = "wrong-ieee-result-" + map[string]string{"+": "add", "-": "sub", "*": "mul", "/": "div"}[cmd]
 		}
@@ -486,6 +942,9 @@ func tag(f []string, out string) string {
 	for _, a := range f[2:] {
 		kinds[a[0]] = true
 	}
+	if f[1] != "-" {
+		kinds[f[1][0]] = true
+	}
 	mix := ""
 	for _, k := range []byte("ibrf") {
 		if kinds[k] {
@@ -496,6 +955,24 @@ func tag(f []string, out string) string {
 	switch {
 	case strings.HasPrefix(out, "EXC "):
 		shape = "exc-" + out[4:]
+	case cmd == "range":
+		k := 0
+		if out != "-" {
+			k = len(strings.Split(out, " "))
+		}
+		switch {
+		case k == 0:
+			shape = "empty"
+		case k == 1:
+			shape = "one"
+		case k < 8:
+			shape = "few"
+		default:
+			shape = "many"
+		}
+		if f[1] != "-" {
+			shape += "+step"
+		}
 	case out == "f:NaN":
 		shape = "nan"
 	case out == "f:7ff0000000000000" || out == "f:fff0000000000000":
@@ -514,13 +991,14 @@ func tag(f []string, out string) string {
 
 func run(c *common.Ctx) error {
 	s := &common.Std{
-		Rule: "random calls of + - * / math:abs/ceil/floor/round/round-to-even/trunc/min/max exact-num inexact-num through a real Evaler with at " +
+		Rule: "random calls of + - * / math:abs/ceil/floor/round/round-to-even/trunc/min/max exact-num inexact-num, float math:pow (only where its value " +
+			"is specified: special-case table, exactly representable integer powers) and float range (bounded count) through a real Evaler with at " +
 			"least one float (±0, ±Inf, NaN, subnormals, near overflow, half-integers, random bit patterns) mixed with exact numbers of all three " +
 			"representations; conversions stressed with rationals at/next to the midpoints between adjacent doubles (ties), the subnormal border, " +
 			"the overflow threshold, and big ints around ±2^63 and ±2^1024; results compared as bit patterns (NaNs collapsed); " +
 			"non-trivial = every op (distinct by op line)",
 		Gen:      gen,
-		NewState: func(*common.Ctx) any { return c11.NewRunner() },
+		NewState: func(*common.Ctx) any { return &state{c11.NewRunner(), newRangeRunner()} },
 		Impl:     impl,
 		Oracle:   oracle,
 		Tag:      tag,
